@@ -532,8 +532,33 @@ func (g *apiGen) next() *apiReq {
 		default:
 			id := "nope-" + r.asciiStr(3, "xyz")
 			note := "bad:unknown-file"
-			if r.Intn(4) == 0 {
+			switch r.Intn(8) {
+			case 0, 1:
 				id, note = "", "bad:empty-id"
+			case 2, 3:
+				// an ID that is NOT stored but is close to one that is: other letter case, one character more or less
+				if k := g.knownID(); k != "nope-0" {
+					switch r.Intn(3) {
+					case 0:
+						if sw := swapCase(k); sw != k {
+							id, note = sw, "bad:unknown-file-other-case"
+						}
+					case 1:
+						id, note = k+"x", "bad:unknown-file-longer"
+					default:
+						if len(k) > 1 {
+							id, note = k[:len(k)-1], "bad:unknown-file-shorter"
+						}
+					}
+					for _, have := range g.ids {
+						if have == id {
+							id, note = "nope-"+r.asciiStr(3, "xyz"), "bad:unknown-file"
+						}
+					}
+				}
+			case 4:
+				// percent-escapes that decode to bytes which are not UTF-8, to a blank, to an encoded slash
+				id, note = []string{"%ff", "ok%c3%28x", "%20", "a%2Fb", "%e2%82"}[r.Intn(5)], "bad:unknown-file-escaped-id"
 			}
 			k := []string{"get", "del", "cont", "val", "upd", "add", "rem"}[r.Intn(7)]
 			q := &apiReq{Kind: k, ID: id, Note: note}
@@ -587,6 +612,19 @@ func (g *apiGen) next() *apiReq {
 	default:
 		return &apiReq{Kind: "del", ID: g.anyID()}
 	}
+}
+
+func swapCase(s string) string {
+	b := []byte(s)
+	for i, c := range b {
+		switch {
+		case c >= 'a' && c <= 'z':
+			b[i] = c - 32
+		case c >= 'A' && c <= 'Z':
+			b[i] = c + 32
+		}
+	}
+	return string(b)
 }
 
 func isReadKind(k string) bool { return k == "list" || k == "get" || k == "cont" || k == "val" }
